@@ -42,7 +42,7 @@ def responses_tie(ctx):
         return
     rng = ctx.rng
     cases = []
-    for _ in range(800 if ctx.thorough else 200):
+    for _ in range(2400 if ctx.thorough else 200):
         n = rng.randint(1, 5)
         keys = []
         while len(keys) < n:
@@ -139,7 +139,7 @@ def check(ctx):
         ctx.cov["evaluations"] = 1
         return core.finish(ctx)
     responses_tie(ctx)
-    n = 3000 if ctx.thorough else 600
+    n = 9000 if ctx.thorough else 600
     ps = progs.gen_programs(ctx, n)
     # corpus: same status with several media types / headers / descriptions, parameter uses with annotations, nested applications
     extra = [
@@ -147,7 +147,7 @@ def check(ctx):
         'let wrap x = { \'data! x `title: "Envelope payload"`, \'n num };\n# title: "Customer name"\nlet name = str;\nres /w on get -> <wrap name>;\n',
         'let f x y = { \'first x, \'second y };\nlet g y x = f y x;\nres /g on get -> <g num str> :: <status=404, (g [num] { \'k bool })>;\n',
     ]
-    evaltie.run(ctx, ps[: (1200 if ctx.thorough else 250)] + [{"mods": {"file:///main.oal": t}, "main": "file:///main.oal"} for t in extra]
+    evaltie.run(ctx, ps[: (3600 if ctx.thorough else 250)] + [{"mods": {"file:///main.oal": t}, "main": "file:///main.oal"} for t in extra]
                 + evaltie.known_witnesses() + evaltie.repo_corpus())
     res = progs.compile_many(ps)
     seen = set()
